@@ -95,6 +95,24 @@ var c06Targets = []c06Target{
 	{"SymbolToken", func() interface{} { return new(ion.SymbolToken) }},
 	{"annot-struct", func() interface{} { return new(c06Annot) }},
 	{"interface{}", func() interface{} { return new(interface{}) }},
+	// named (defined) types: reflect's assignability differs from the underlying kinds
+	{"map[named string]int", func() interface{} { return new(map[c06Key]int) }},
+	{"map[string]named", func() interface{} { return new(map[string]c06Int) }},
+	{"named []named", func() interface{} { return new(c06Ints) }},
+	{"named []byte", func() interface{} { return new(c06Bytes) }},
+	{"struct of named", func() interface{} { return new(c06Named) }},
+}
+
+type c06Key string
+type c06Int int16
+type c06Ints []c06Int
+type c06Bytes []byte
+type c06Named struct {
+	A c06Int            `ion:"a"`
+	B c06Key            `ion:"b"`
+	C c06Ints           `ion:"c"`
+	D map[c06Key]c06Key `ion:"d"`
+	E c06Bytes          `ion:"e"`
 }
 
 var c06Drivers = []string{"traverse-all-accessors", "next-only", "stepin-stepout", "decoder-loop", "unmarshal-interface", "unmarshal-typed"}
@@ -217,10 +235,17 @@ func c06HostileLST(slot int, v *rm.Value) []*rm.Value {
 }
 
 // extreme declared sizes
-var c06Sizes = []uint64{127, 128, 16383, 16384, 1 << 20, 1<<21 - 1, 1 << 30, 1 << 33, 200000000000000, 1<<63 - 1, 1 << 63, 1<<64 - 1}
+var c06Sizes = func() []uint64 {
+	out := []uint64{127, 128, 16383, 16384, 1 << 20, 1<<21 - 1, 1 << 30, 1<<32 - 1, 1 << 32, 1 << 33, 200000000000000, 1<<63 - 1, 1 << 63, 1<<63 + 1}
+	// every length in the last 48 below 2^64: position + length wraps around for these
+	for k := uint64(48); k >= 1; k-- {
+		out = append(out, -k)
+	}
+	return out
+}()
 
 func c06Extreme(c *mc.Ctx) ([]byte, string) {
-	kind := c.Pick("extreme", 6)
+	kind := c.Pick("extreme", 7)
 	switch kind {
 	case 0: // every type code with L=14 and a huge VarUInt length
 		t := byte(c.Shard("type", 15))
@@ -235,6 +260,46 @@ func c06Extreme(c *mc.Ctx) ([]byte, string) {
 			body = append([]byte{0xDE, 0x91, 0x84}, body...)
 		}
 		return append(append([]byte{}, refbin.BVM...), body...), fmt.Sprintf("type %x declared length %d nested=%d", t, n, nested)
+	case 6: // annotation wrappers whose three lengths (wrapper, annotation list, wrapped value) disagree,
+		// including the wrapped length that balances the books modulo 2^64
+		wl := uint64(c.Shard("wrapper-len", 15)) // 14 = VarUInt form
+		al := uint64(c.Pick("annot-len", 13))
+		nsid := c.Pick("sid-bytes", 12)
+		inner := c.Pick("inner", 6)
+		ctx := c.Pick("context", 3)
+		var w []byte
+		if wl == 14 {
+			wl = uint64(1 + nsid + 11)
+			w = append([]byte{0xEE}, varUint64(wl)...)
+		} else {
+			w = []byte{0xE0 | byte(wl)}
+		}
+		w = append(w, varUint64(al)...)
+		for i := 0; i < nsid; i++ {
+			w = append(w, 0x84)
+		}
+		switch inner {
+		case 0:
+			w = append(w, 0x20)
+		case 1:
+			w = append(w, 0x21, 0x01)
+		case 2: // wrapped length = what is "left" of the wrapper, computed with wrap-around
+			w = append(append(w, 0x2E), varUint64(wl-1-al-11)...)
+		case 3:
+			w = append(append(w, 0x2E), varUint64(wl-uint64(nsid)-1-11)...)
+		case 4:
+			w = append(append(w, 0xBE), varUint64(wl-1-al-11)...)
+		case 5:
+			w = append(append(w, 0x8E), varUint64(-uint64(nsid)-12)...)
+		}
+		w = append(w, 0x20, 0x20)
+		switch ctx {
+		case 1:
+			w = append([]byte{0xB0 | byte(min(13, len(w)-2))}, w...)
+		case 2:
+			w = append([]byte{0xD0 | byte(min(13, len(w)-1)), 0x84}, w...)
+		}
+		return append(append([]byte{}, refbin.BVM...), w...), fmt.Sprintf("annotation wrapper len=%d annot_length=%d sid-bytes=%d inner=%d context=%d", wl, al, nsid, inner, ctx)
 	case 1: // VarUInt that never terminates / overflows
 		n := c.Shard("len", 14)
 		body := []byte{0x8E}
@@ -481,8 +546,8 @@ func init() {
 		ID:    "C06",
 		Title: "No input can crash, hang or exhaust memory in a Reader, Decoder or Unmarshal",
 		Rule: "inputs, all enumerated exhaustively: (a) the version marker followed by EVERY byte string of length <=2 and every length-3 string over a 48-tag alphabet (thorough: all 2^24), and EVERY text string of length <=3 (thorough 4) over a 37-character alphabet of grammar-significant bytes; (b) hostile symbol tables: 11 slots (symbols, symbols[i], imports, imports[i], name, version, max_id, duplicated fields, unknown fields, annotated slots) x 24 odd values (every typed null, wrong-typed scalars, negative/huge integers) in text and binary, followed by values using the affected IDs; " +
-			"(c) extreme declared sizes: every type code with L=14 and VarUInt lengths up to 2^64-1 at top level and nested, unterminated/overlong VarUInts, decimal and timestamp-fraction exponents and coefficients at int32/int64 boundaries, symbol IDs / max_id / version beyond int64, text exponents beyond int32, nesting to depth 5000; (d) every position of every seed document x byte substitutions (52 values quick, all 256 thorough) in both formats. " +
-			"Each input under six drivers (full traversal calling ALL 18 accessors on every value, Next only, StepIn/StepOut/refused StepOut, Decoder.Decode loop, Unmarshal into interface{}, Unmarshal into each of 18 typed targets). Oracle: no panic (recovered and attributed), no worker death (case announced beforehand), at most 16*len+64 calls per driver (deterministic hang guard), heap allocation <= 1 MiB + 4 KiB per input byte. " +
+			"(c) extreme declared sizes: every type code with L=14 and VarUInt lengths up to 2^63+1 plus EVERY length in the last 48 below 2^64 (position+length wraps) at top level and nested, annotation wrappers whose wrapper length (0..13, VarUInt), annotation-list length (0..12), number of SID bytes present (0..11) and wrapped value disagree in every combination incl. wrapped lengths that balance modulo 2^64, at top level / in a list / in a struct, unterminated/overlong VarUInts, decimal and timestamp-fraction exponents and coefficients at int32/int64 boundaries, symbol IDs / max_id / version beyond int64, text exponents beyond int32, nesting to depth 5000; (d) every position of every seed document x byte substitutions (52 values quick, all 256 thorough) in both formats. " +
+			"Each input under six drivers (full traversal calling ALL 18 accessors on every value, Next only, StepIn/StepOut/refused StepOut, Decoder.Decode loop, Unmarshal into interface{}, Unmarshal into each of 23 typed targets incl. named key/element/slice types). Oracle: no panic (recovered and attributed), no worker death (case announced beforehand), at most 16*len+64 calls per driver (deterministic hang guard), heap allocation <= 1 MiB + 4 KiB per input byte. " +
 			"non-trivial = driver ran to completion under all guards; distinct = distinct (family, driver, progress) digests",
 		Bounds:       map[string]string{"quick": "binary len<=2 + 48^3; text len<=3; substitutions on seeds <=120 bytes, 52 values", "thorough": "binary len<=3 all bytes; text len<=4; all seeds, all 256 values"},
 		Assumptions:  []string{"allocation is measured with runtime/metrics /gc/heap/allocs:bytes around the ion-go calls (includes the drivers' own small allocations)", "wall-clock time is never an oracle; a worker that stops making progress is killed by the parent and reported as a hang of the announced case"},
